@@ -2767,6 +2767,9 @@ class Interp:
         for t in node.targets:
             if isinstance(t, ast.Subscript):
                 obj = self.ev(t.value)
+                if getattr(obj, "kind", None) == "nameset":
+                    self.world.ns_remove(self, obj, self.ev(t.slice), node)
+                    continue
                 if getattr(obj, "kind", None) == "map":
                     from . import maps
                     k = maps.key_of(self, self.ev(t.slice))
